@@ -22,6 +22,7 @@
          -> ok <id> kt=.. kp=.. km=.. c=.. | err:<class> ... | panic:<site> ...
 -/
 import OllamaVerif.Model.Sampler
+import OllamaVerif.Proofs.SamplerNaN
 import Oracle.Util
 import Std.Data.HashMap
 namespace Oracle.C18
@@ -140,7 +141,8 @@ def sampleSummary (o : Ops Float32) (fix pre : Bool) (P : Params Float32) (r : F
            (match C.getLast? with
             | some tot => if o.le (o.mul r tot) tot then [] else ["r"]
             | none => [])
-         | .error _ => ["empty"])
+         | .error _ => ["empty"]) ++
+        (if runGood o P r L1 && L1.all (fun t => !o.isNaN t.val) then [] else ["nan"])
       if flags.isEmpty then "ok" else "bad:" ++ joinWith "," flags
     let head := match res with
       | .ok t => s!"ok {t.id}"
